@@ -889,8 +889,12 @@ def part_valgrind(ctx, exe, cases):
         def one(c):
             cfg, ip, ldir = c
             L = common.LANG_OF_DIR.get(ldir, ldir.upper())
+            # glibc's AVX2 wmemcmp/memcmp read whole vectors past the end of a block (never across a page); memcheck 3.19 reports
+            # that as an invalid read (std::set<std::wstring> in match_doxygen_javadoc_tag; ASan is clean on the same run), so the
+            # vectorised variants are switched off for the run under valgrind
+            env = dict(os.environ, GLIBC_TUNABLES="glibc.cpu.hwcaps=-AVX2_Usable,-AVX2")
             p = common.subprocess.run(["valgrind", "-q", "--error-exitcode=99", "--track-origins=no", exe, "-q", "-c", cfg, "-l", L, "-f", ip],
-                                      stdout=common.subprocess.PIPE, stderr=common.subprocess.PIPE, timeout=900)
+                                      stdout=common.subprocess.PIPE, stderr=common.subprocess.PIPE, timeout=900, env=env)
             return p.returncode, p.stderr
         res = common.pmap(one, cases)
         bad = 0
